@@ -25,6 +25,16 @@ def py_expr(n):
 		if type(n.op) not in PY_BIN:
 			raise Unsupported('binary operator')
 		return ('bin', PY_BIN[type(n.op)], py_expr(n.left), py_expr(n.right))
+	if isinstance(n, ast.Compare) and len(n.ops) == 1 and isinstance(n.ops[0], (ast.In, ast.NotIn)):
+		e = ('in', py_expr(n.left), py_expr(n.comparators[0]))
+		return e if isinstance(n.ops[0], ast.In) else ('un', 'not', e)
+	if isinstance(n, ast.Subscript) and not isinstance(n.slice, ast.Slice):
+		return ('index', py_expr(n.value), py_expr(n.slice))
+	if isinstance(n, ast.List):
+		return ('listlit', [py_expr(x) for x in n.elts])
+	if isinstance(n, ast.ListComp) and len(n.generators) == 1 and isinstance(n.generators[0].target, ast.Name) and len(n.generators[0].ifs) <= 1 and not n.generators[0].is_async:
+		g = n.generators[0]
+		return ('listcomp', py_expr(n.elt), g.target.id, py_expr(g.iter), py_expr(g.ifs[0]) if g.ifs else None)
 	if isinstance(n, ast.Compare):
 		items = [py_expr(n.left)]
 		for op, c in zip(n.ops, n.comparators):
@@ -61,6 +71,15 @@ def py_block(stmts) -> list:
 			var = ('var', s.target.id)
 			cond = ('bin', '<', var, stop) if len(a) < 3 else ('rangecond', var, stop, step)
 			out.append(('for', s.target.id, start, cond, ('aug', '+', s.target.id, step), py_block(s.body)))
+		elif isinstance(s, ast.For) and not s.orelse and isinstance(s.target, ast.Name):
+			out.append(('foreach', s.target.id, py_expr(s.iter), py_block(s.body), None))
+		elif isinstance(s, ast.For) and not s.orelse and isinstance(s.target, ast.Tuple) and len(s.target.elts) == 2 and all(isinstance(x, ast.Name) for x in s.target.elts) \
+				and isinstance(s.iter, ast.Call) and isinstance(s.iter.func, ast.Name) and s.iter.func.id == 'enumerate' and len(s.iter.args) == 1:
+			out.append(('foreach', s.target.elts[1].id, py_expr(s.iter.args[0]), py_block(s.body), s.target.elts[0].id))
+		elif isinstance(s, ast.Expr) and isinstance(s.value, ast.Call) and isinstance(s.value.func, ast.Attribute) and s.value.func.attr == 'append' and isinstance(s.value.func.value, ast.Name) and len(s.value.args) == 1:
+			out.append(('append', s.value.func.value.id, py_expr(s.value.args[0])))
+		elif isinstance(s, ast.Assign) and len(s.targets) == 1 and isinstance(s.targets[0], ast.Subscript) and isinstance(s.targets[0].value, ast.Name) and not isinstance(s.targets[0].slice, ast.Slice):
+			out.append(('setitem', s.targets[0].value.id, py_expr(s.targets[0].slice), py_expr(s.value)))
 		elif isinstance(s, ast.Return):
 			out.append(('return', py_expr(s.value) if s.value is not None else None))
 		elif isinstance(s, ast.Break):
@@ -92,7 +111,7 @@ def py_functions(source: str) -> dict:
 
 # ---------------------------------------------------------------- C++ (the subset tranp emits for scalar code)
 CPP_PREC = {'||': 1, '&&': 2, '|': 3, '^': 4, '&': 5, '==': 6, '!=': 6, '<': 7, '>': 7, '<=': 7, '>=': 7, '<<': 8, '>>': 8, '+': 9, '-': 9, '*': 10, '/': 10, '%': 10}
-TOKEN = re.compile(r'\s*(\d+|[A-Za-z_][\w:]*|\|\||&&|==|!=|<=|>=|<<=|>>=|<<|>>|\+=|-=|\*=|/=|%=|&=|\|=|\^=|[-+*/%&|^!~<>()?:;,={}])')
+TOKEN = re.compile(r'\s*(\d+|[A-Za-z_][\w:]*|\|\||&&|==|!=|<=|>=|<<=|>>=|<<|>>|\+\+|--|->|\+=|-=|\*=|/=|%=|&=|\|=|\^=|[-+*/%&|^!~<>()?:;,={}\[\].])')
 
 
 def tokens(text: str) -> list:
@@ -180,7 +199,34 @@ class CppParser:
 			self.eat()
 			e = self.expr()
 			self.eat(')')
-			return e
+			return self.postfix(e)
+		if t == '[' and self.peek(1) == '&' and self.peek(2) == ']':
+			# immediately invoked lambda: [&]() -> T { ... }()
+			self.eat(); self.eat(); self.eat()
+			self.eat('(')
+			self.eat(')')
+			self.eat('->')
+			self.type()
+			body = self.block()
+			self.eat('(')
+			self.eat(')')
+			return ('iife', body)
+		if t == 'std::find':
+			# (std::find(X.begin(), X.end(), e) != X.end()) -> e in X
+			self.eat()
+			self.eat('(')
+			x = self.eat()
+			for w in ('.', 'begin', '(', ')', ',', x, '.', 'end', '(', ')', ','):
+				self.eat(w)
+			e = self.expr()
+			self.eat(')')
+			op = self.eat()
+			if op not in ('!=', '=='):
+				raise Unsupported('std::find comparison')
+			for w in (x, '.', 'end', '(', ')'):
+				self.eat(w)
+			inside = ('in', e, ('var', x))
+			return inside if op == '!=' else ('un', 'not', inside)
 		self.eat()
 		if t is None:
 			raise Unsupported('C++ parse: unexpected end')
@@ -202,8 +248,56 @@ class CppParser:
 				if self.peek() == ',':
 					self.eat()
 			self.eat(')')
-			return ('call', t, args)
-		return ('var', t)
+			return self.postfix(('call', t, args))
+		return self.postfix(('var', t))
+
+	def postfix(self, e):
+		while True:
+			if self.peek() == '[':
+				self.eat()
+				i = self.expr()
+				self.eat(']')
+				e = ('index', e, i)
+			elif self.peek() == '.' and self.peek(1) == 'size' and self.peek(2) == '(':
+				for w in ('.', 'size', '(', ')'):
+					self.eat(w)
+				e = ('len', e)
+			else:
+				return e
+
+	def type(self) -> str:
+		"""int | bool | auto | std::vector<int>, with optional const / & decoration"""
+		if self.peek() == 'const':
+			self.eat()
+		t = self.eat()
+		if t == 'std::vector':
+			self.eat('<')
+			inner = self.eat()
+			self.eat('>')
+			if inner != 'int':
+				raise Unsupported(f'std::vector<{inner}>')
+			t = 'list'
+		elif t not in ('int', 'bool', 'auto'):
+			raise Unsupported(f'type {t}')
+		if self.peek() == '&':
+			self.eat()
+		return t
+
+	def init_list(self):
+		"""{ {e}, {e}, } or { e, e } or {}"""
+		self.eat('{')
+		items = []
+		while self.peek() != '}':
+			if self.peek() == '{':
+				self.eat()
+				items.append(self.expr())
+				self.eat('}')
+			else:
+				items.append(self.expr())
+			if self.peek() == ',':
+				self.eat()
+		self.eat('}')
+		return ('listlit', items)
 
 	# statements
 	def block(self) -> list:
@@ -234,6 +328,14 @@ class CppParser:
 			self.eat(')')
 			return ('while', c, self.block())
 		if t == 'for':
+			# for (auto& x : xs) { ... }
+			if self.peek(2) == 'auto' and self.peek(3) == '&' and self.peek(5) == ':':
+				self.eat(); self.eat('('); self.eat('auto'); self.eat('&')
+				name = self.eat()
+				self.eat(':')
+				it = self.expr()
+				self.eat(')')
+				return ('foreach', name, it, self.block(), None)
 			# for (auto i = A; i < B; i += K) { ... }
 			self.eat()
 			self.eat('(')
@@ -269,6 +371,41 @@ class CppParser:
 			while self.eat() != ';':
 				pass
 			return ('raise',)
+		if t == 'std::vector':
+			typ = self.type()
+			name = self.eat()
+			if self.peek() == ';':
+				self.eat()
+				return ('decl', typ, name, ('listlit', []))
+			self.eat('=')
+			e = self.init_list() if self.peek() == '{' else self.expr()
+			self.eat(';')
+			return ('decl', typ, name, e)
+		if re.fullmatch(r'[A-Za-z_]\w*', t or '') and self.peek(1) == '.' and self.peek(2) == 'push_back':
+			name = self.eat()
+			for w in ('.', 'push_back', '('):
+				self.eat(w)
+			e = self.expr()
+			self.eat(')')
+			self.eat(';')
+			return ('append', name, e)
+		if re.fullmatch(r'[A-Za-z_]\w*', t or '') and self.peek(1) in ('++', '--') and self.peek(2) == ';':
+			name = self.eat()
+			op = self.eat()
+			self.eat(';')
+			return ('aug', op[0], name, ('int', 1))
+		if re.fullmatch(r'[A-Za-z_]\w*', t or '') and self.peek(1) == '[':
+			save = self.i
+			name = self.eat()
+			self.eat('[')
+			ie = self.expr()
+			self.eat(']')
+			if self.peek() == '=':
+				self.eat()
+				e = self.expr()
+				self.eat(';')
+				return ('setitem', name, ie, e)
+			self.i = save
 		if t in ('int', 'bool', 'auto') and re.fullmatch(r'[A-Za-z_]\w*', self.peek(1) or '') and self.peek(2) == '=':
 			typ = self.eat()
 			name = self.eat()
@@ -293,7 +430,7 @@ class CppParser:
 		return ('expr', e)
 
 
-FUNC_HEAD = re.compile(r'^(int|bool|void)\s+([A-Za-z_]\w*)\((.*?)\)\s*\{\s*$')
+FUNC_HEAD = re.compile(r'^(int|bool|void|std::vector<int>)\s+([A-Za-z_]\w*)\((.*?)\)\s*\{\s*$')
 
 
 def cpp_functions(text: str) -> dict:
@@ -317,7 +454,9 @@ def cpp_functions(text: str) -> dict:
 			if '=' in p:
 				p, d = p.split('=', 1)
 				default = CppParser(tokens(d)).expr()
-			typ, pname = p.split()
+			parts = p.replace('&', ' ').split()
+			pname = parts[-1]
+			typ = 'list' if 'std::vector<int>' in parts else parts[-2]
 			params.append((pname, typ, default))
 		body = CppParser(tokens(body_text)).block()
 		out[name] = (params, body, rtype)
